@@ -48,8 +48,10 @@ pub const MSG_TABLE: [&[u8]; 8] = [
     b"Sim custom error 3",
     b"Sim custom error 4",
     b"Sim custom error 5",
-    b"Sim custom error 6",
-    b"Sim custom error 7",
+    // a description containing the string delimiter (only used without extended text)
+    b"Relay \"K1\" stuck",
+    // a description longer than 255 characters
+    b"Sim custom error 7 with a very long device-dependent description: 0123456789 0123456789 0123456789 0123456789 0123456789 0123456789 0123456789 0123456789 0123456789 0123456789 0123456789 0123456789 0123456789 0123456789 0123456789 0123456789 0123456789 0123456789 0123456789 end",
 ];
 
 pub fn build_err(spec: &ErrSpec) -> Error {
@@ -594,6 +596,10 @@ fn write_datum(resp: &mut ResponseUnit, d: &Datum) {
             let l: Vec<u16> = alloc::harness(|| v.clone());
             resp.data(l);
         }
+        Datum::ChrList(v) => {
+            let l: Vec<Character> = alloc::harness(|| v.iter().map(|s| Character(s.as_bytes())).collect());
+            resp.data(l);
+        }
     }
 }
 
@@ -626,6 +632,10 @@ pub fn datum_text(d: &Datum) -> core::result::Result<Vec<u8>, ErrObs> {
             a.format_response_data(&mut v)
         }
         Datum::VecList(l) => l.format_response_data(&mut v),
+        Datum::ChrList(l) => {
+            let x: Vec<Character> = l.iter().map(|s| Character(s.as_bytes())).collect();
+            x.format_response_data(&mut v)
+        }
     };
     match r {
         Ok(()) => Ok(v),
@@ -735,6 +745,17 @@ impl SimHandler {
 }
 
 impl Command<SimDevice> for SimHandler {
+    /// the hint is "not actually binding in any way": every handler implements both forms whatever
+    /// it advertises
+    fn meta(&self) -> CommandTypeMeta {
+        match self.id % 4 {
+            0 => CommandTypeMeta::Unknown,
+            1 => CommandTypeMeta::NoQuery,
+            2 => CommandTypeMeta::QueryOnly,
+            _ => CommandTypeMeta::Both,
+        }
+    }
+
     fn event(&self, device: &mut SimDevice, _context: &mut Context, mut params: Parameters) -> Result<()> {
         self.run(device, &mut params, None)
     }
@@ -772,6 +793,53 @@ const MANDATED: &[Node<'static, SimDevice>] = &[
 
 pub const IDN_RESPONSE: &[u8] = b"SimCo,S100,0,1.0";
 
+use scpi_contrib::scpi1999::status::{operation::*, questionable::*, StatPresetCommand};
+
+/// Same mandated command set, but the STATus sub-tree is written out by hand with the public
+/// per-register command aliases (what a device that adds its own nodes to STATus would do).
+const MANDATED_ALIAS: &[Node<'static, SimDevice>] = &[
+    ieee488_cls!(),
+    ieee488_ese!(),
+    ieee488_esr!(),
+    ieee488_idn!(b"SimCo", b"S100", b"0", b"1.0"),
+    ieee488_opc!(),
+    ieee488_rst!(),
+    ieee488_sre!(),
+    ieee488_stb!(),
+    ieee488_tst!(),
+    ieee488_wai!(),
+    Node::Branch {
+        name: b"STATus",
+        default: false,
+        sub: &[
+            Node::Branch {
+                name: b"OPERation",
+                default: false,
+                sub: &[
+                    Node::Leaf { name: b"EVENt", default: true, handler: &StatOperEventCommand::new() },
+                    Node::Leaf { name: b"CONDition", default: false, handler: &StatOperConditionCommand::new() },
+                    Node::Leaf { name: b"ENABle", default: false, handler: &StatOperEnableCommand::new() },
+                    Node::Leaf { name: b"NTRansition", default: false, handler: &StatOperNTransitionCommand::new() },
+                    Node::Leaf { name: b"PTRansition", default: false, handler: &StatOperPTransitionCommand::new() },
+                ],
+            },
+            Node::Branch {
+                name: b"QUEStionable",
+                default: false,
+                sub: &[
+                    Node::Leaf { name: b"EVENt", default: true, handler: &StatQuesEventCommand::new() },
+                    Node::Leaf { name: b"CONDition", default: false, handler: &StatQuesConditionCommand::new() },
+                    Node::Leaf { name: b"ENABle", default: false, handler: &StatQuesEnableCommand::new() },
+                    Node::Leaf { name: b"NTRansition", default: false, handler: &StatQuesNTransitionCommand::new() },
+                    Node::Leaf { name: b"PTRansition", default: false, handler: &StatQuesPTransitionCommand::new() },
+                ],
+            },
+            Node::Leaf { name: b"PRESet", default: false, handler: &StatPresetCommand },
+        ],
+    },
+    scpi_system!(),
+];
+
 fn copy_node(n: &Node<'static, SimDevice>) -> Node<'static, SimDevice> {
     match n {
         Node::Leaf { name, default, handler } => Node::Leaf {
@@ -791,19 +859,40 @@ fn leak_name(s: &str) -> &'static [u8] {
     Box::leak(s.as_bytes().to_vec().into_boxed_slice())
 }
 
-fn build_app(t: &TNode) -> Node<'static, SimDevice> {
+fn build_app(t: &TNode, ctor: bool) -> Node<'static, SimDevice> {
     match t {
-        TNode::Leaf { name, default, h } => Node::Leaf {
-            name: leak_name(name),
-            default: *default,
-            handler: Box::leak(Box::new(SimHandler { id: *h })),
-        },
+        TNode::Leaf { name, default, h } => {
+            let handler: &'static SimHandler = Box::leak(Box::new(SimHandler { id: *h }));
+            if ctor {
+                // through the public const constructors
+                if *default {
+                    Node::default_leaf(leak_name(name), handler)
+                } else {
+                    Node::leaf(leak_name(name), handler)
+                }
+            } else {
+                Node::Leaf {
+                    name: leak_name(name),
+                    default: *default,
+                    handler,
+                }
+            }
+        }
         TNode::Branch { name, default, sub } => {
-            let v: Vec<Node<'static, SimDevice>> = sub.iter().map(build_app).collect();
-            Node::Branch {
-                name: leak_name(name),
-                default: *default,
-                sub: Box::leak(v.into_boxed_slice()),
+            let v: Vec<Node<'static, SimDevice>> = sub.iter().map(|c| build_app(c, ctor)).collect();
+            let sub: &'static [Node<'static, SimDevice>] = Box::leak(v.into_boxed_slice());
+            if ctor {
+                if *default {
+                    Node::default_branch(leak_name(name), sub)
+                } else {
+                    Node::branch(leak_name(name), sub)
+                }
+            } else {
+                Node::Branch {
+                    name: leak_name(name),
+                    default: *default,
+                    sub,
+                }
             }
         }
     }
@@ -856,24 +945,34 @@ pub fn build_tree(desc: &TreeDesc) -> &'static Node<'static, SimDevice> {
             return t.0;
         }
     }
-    let t = build_tree_uncached(desc);
+    let t = build_tree_uncached(desc, key);
     map.entry(key).or_default().push((desc.clone(), SharedTree(t)));
     t
 }
 
-fn build_tree_uncached(desc: &TreeDesc) -> &'static Node<'static, SimDevice> {
+fn build_tree_uncached(desc: &TreeDesc, key: u64) -> &'static Node<'static, SimDevice> {
+    // how the tree is put together varies with the description (deterministically): struct
+    // literals or the public const constructors; STATus built by `scpi_status!()` or by hand
+    // from the documented `StatOper*Command` / `StatQues*Command` aliases
+    let ctor = key & 1 == 1;
+    let aliases = key & 2 == 2;
     let mut v: Vec<Node<'static, SimDevice>> = Vec::new();
     if desc.mandated {
-        for n in MANDATED {
+        for n in if aliases { MANDATED_ALIAS } else { MANDATED } {
             v.push(copy_node(n));
         }
     }
     for t in &desc.app {
-        v.push(build_app(t));
+        v.push(build_app(t, ctor));
     }
-    Box::leak(Box::new(Node::Branch {
-        name: b"",
-        default: false,
-        sub: Box::leak(v.into_boxed_slice()),
-    }))
+    let sub: &'static [Node<'static, SimDevice>] = Box::leak(v.into_boxed_slice());
+    if ctor {
+        Box::leak(Box::new(Node::root(sub)))
+    } else {
+        Box::leak(Box::new(Node::Branch {
+            name: b"",
+            default: false,
+            sub,
+        }))
+    }
 }
